@@ -982,8 +982,20 @@ def check_C01(ctx):
         discharge_residual_obligations(ctx, fac, "C01.panic-site", max_ranks=5, PR=tabs[2] if tabs else None)
     premise_entry(ctx, "E", sizes=((FIVE, 5),))
     ctx.guard("E.rank", rank_carries_value, ctx, "E", ((FIVE, 5),))
-    # validated ranking of five distinct real cards takes the ranking edge: is_valid is true there (V, short form)
-    ctx.guard("V.five", premise_unique, ctx, FIVE, 5, "V.are_unique")
+    # validated ranking of five distinct real cards takes the ranking edge: is_valid is true there — the card filter
+    # accepts every card, is_corrupt is `some slot is filtered to BLANK`, is_valid is `unique and not corrupt`
+    def filt_():
+        cards_ = ctx.card_consts()
+        words_ = list(cards_.values())
+        w_ = atom("w", "u32")
+        for nm_, (key_, sty_) in (("PokerCard::filter", ctx.method("u32", "filter", PC)), ("CardNumber::filter", (pdb.inherent("CardNumber", "filter"), None))):
+            sm_ = ctx.summ(key_, [("v", w_)], sty_)
+            badw_ = [wd for wd in words_ if cval(ctx.fold(sm_.ret, {"w": wd})) != wd]
+            rep.evals(len(words_))
+            # (only what C01 needs: every real card passes the filter; what it does to other words is C04 / C10)
+            rep.ob("V.filter-accepts-cards", nm_, not badw_, "%s rejects or alters the card %s" % (nm_, hex(badw_[0]) if badw_ else ""), pdb.where(key_))
+    ctx.guard("V.filter", filt_)
+    premise_validators(ctx, ((FIVE, 5),))
     # ... and the entry points themselves return: their own panic sites (outside the ranking proper, which the
     # C01.panic-site rule covers) hold for five real cards
     ctx.guard("C01.entry-no-panic", entry_totality, ctx, "C01.entry-no-panic", ((FIVE, 5),), fac)
@@ -2436,25 +2448,14 @@ def check_C03(ctx):
 # -------------------------------------------------------------------------------------------------
 # C04
 
-def check_C04(ctx):
+def premise_validators(ctx, containers):
+    """is_corrupt / contain_blank / is_valid / are_unique of the given containers (C04 for all six; C01 for Five, whose
+    validated entry points return the ranking only where is_valid() is true)"""
     rep, pdb = ctx.rep, ctx.pdb
-    premise_layout(ctx)
-    cards = ctx.guard("L.constants", ctx.card_consts)
-    if cards is None:
-        return
-    words = list(cards.values())
-
-    def filt():
-        key, sty = ctx.method("u32", "filter", PC)
-        check_filter_cells(ctx, "V.filter", key, sty, words)
-        k2 = pdb.inherent("CardNumber", "filter")
-        check_filter_cells(ctx, "V.filter(CardNumber)", k2, None, words)
-    ctx.guard("V.filter", filt)
-
     kfilter = pdb.inherent("CardNumber", "filter")
     kpf, _ = ctx.method("u32", "filter", PC)
     cnt = 0
-    for path, n in CONTAINERS:
+    for path, n in containers:
         h = ctx.hand(path, n)
         def corrupt(path=path, n=n, h=h):
             key, sty = ctx.method(path, "is_corrupt", HV)
@@ -2476,48 +2477,59 @@ def check_C04(ctx):
                     direct.add(x[1])
                 stack.extend(children(x))
             bad = None
-            if direct:
-                # slots are also read directly (e.g. `filter(c) != c || c == BLANK`): decide on abstract hands — every
-                # subset of slots holding a non-card word (several kinds), real cards elsewhere — with the filter inlined
-                full = ctx.summ(key, [("r", h)], sty).ret
-                deck = [oracle.card_word(rk, su) for (rk, su) in oracle.deck_order()]
-                kinds = [0, 1, 0xFFFFFFFF, deck[0] | (1 << 29), deck[7] ^ 1, deck[11] ^ (1 << 20), deck[3] ^ (1 << 13), 7, 0x10000, 0x8000]
-                badp = None
-                cnt_ = 0
-                for pat in range(1 << n):
-                    for kshift in range(len(kinds) if pat else 1):
-                        env = {"s%d" % i: (kinds[(i + kshift) % len(kinds)] if (pat >> i) & 1 else deck[5 * i + 1]) for i in range(n)}
-                        cnt_ += 1
-                        try:
-                            got = cval(evaluate(pdb, full, env))
-                        except (Uncertified, IndexError):
-                            got = None
-                        if got != (1 if pat else 0):
-                            badp = badp or (pat, env)
-                rep.evals(cnt_)
-                rep.ob("V.is_corrupt", short(path), badp is None,
-                       "is_corrupt is wrong on a hand whose non-card slots are %s" % ([i for i in range(n) if (badp[0] >> i) & 1] if badp else ""), pdb.where(key))
-                rep.note("V.is_corrupt(%s) reads slot words directly; decided on %d abstract hands (non-card subsets x kinds of non-card word)" % (short(path), cnt_))
-                rep.extra["exhaustive"] = False
-                key2, sty2 = ctx.method(path, "contain_blank", HV)
-                r = ctx.summ(key2, [("r", h)], sty2).ret
-                badb = 0
-                for blank_at in [None] + list(range(n)):
-                    env = {"s%d" % i: (0 if i == blank_at else 7 + i) for i in range(n)}
-                    badb += 0 if cval(ctx.fold(r, env)) == (0 if blank_at is None else 1) else 1
-                rep.ob("V.contain_blank", short(path), badb == 0, "contain_blank is not `some slot equals BLANK`", pdb.where(key2))
+            if "filter applied to a non-slot value" in direct:
+                rep.uncertified("V.is_corrupt", "%s::is_corrupt applies the card filter to something other than the slot words themselves" % short(path), pdb.where(key))
                 return
-            if not direct:
-                for pat in range(1 << n):
-                    vals = {"s%d" % i: (0 if (pat >> i) & 1 else 1000 + i) for i in range(n)}
-                    hnd = lambda a, vals=vals: C(vals[a[1]] if a[0] == "atom" else 1, "u32")
-                    env = {"$fn:" + kfilter: hnd, "$fn:" + kpf: hnd}
-                    got = cval(evaluate(pdb, sm.ret, env))
-                    if got != (1 if pat else 0):
-                        bad = pat
-                rep.evals(1 << n)
-            rep.ob("V.is_corrupt", short(path), not direct and bad is None,
-                   "is_corrupt is not `some slot is mapped to BLANK by the card filter` over exactly the %d slots (%s)" % (n, "reads %s directly" % sorted(direct) if direct else "wrong when the filter blanks slots %s" % [i for i in range(n) if (bad or 0) >> i & 1]), pdb.where(key))
+            # the filter's results (and the slot words, when they are read directly) as ordered values: the result may
+            # only compare them with each other and with constants; the constants cut cells, and every combination of
+            # per-slot states is folded
+            fcalls = {}
+            for x in walk(sm.ret):
+                if x[0] == "call" and x[1] in ("fn:" + kfilter, "fn:" + kpf):
+                    fcalls[id(x)] = (x, int(x[2][0][1][1:]))
+            dag = substitute(sm.ret, lambda nd: atom("$f%d" % fcalls[id(nd)][1], "u32") if id(nd) in fcalls else None)
+            names_ = {"$f%d" % i for i in range(n)} | {"s%d" % i for i in range(n)}
+            consts_, why_ = value_use([dag], names_)
+            if why_ is not None:
+                rep.uncertified("V.is_corrupt", "%s::is_corrupt computes with the slot words / filter results instead of comparing them (%s)" % (short(path), why_), pdb.where(key))
+                return
+            card_cells = sorted({c for c in consts_ if c != 0})
+            if len(card_cells) > 3:
+                rep.uncertified("V.is_corrupt", "%s::is_corrupt compares with %d constants; too many per-slot cases to enumerate" % (short(path), len(card_cells)), pdb.where(key))
+                return
+            # per-slot states: blank (s = f = 0); a non-card word (s = junk, f = 0); a card (s = f = w) with w in every
+            # cell the constants cut (each constant itself, and a word that is none of them)
+            deck = [oracle.card_word(rk, su) for (rk, su) in oracle.deck_order()]
+            cardvals = list(card_cells) + [next(w for w in deck if w not in card_cells)]
+            junkvals = [c for c in card_cells] + [7]
+            states = [("blank", 0, 0)] + [("junk", j, 0) for j in junkvals] + [("card", w, w) for w in cardvals]
+            total = len(states) ** n
+            if total > 300000:
+                rep.uncertified("V.is_corrupt", "%s::is_corrupt: %d per-slot cases to enumerate" % (short(path), total), pdb.where(key))
+                return
+            import itertools
+            cnt_ = 0
+            badp = None
+            for combo in itertools.product(range(len(states)), repeat=n):
+                env = {}
+                for i, si in enumerate(combo):
+                    kind, sv, fv = states[si]
+                    # distinct cards in distinct slots where the state allows (a card state with a free word)
+                    if kind == "card" and sv not in card_cells:
+                        sv = fv = next(w for w in deck[i * 5:] if w not in card_cells)
+                    if kind == "junk" and sv == 7:
+                        sv = 7 + 2 * i
+                    env["s%d" % i] = sv
+                    env["$f%d" % i] = fv
+                cnt_ += 1
+                got = cval(evaluate(pdb, dag, env))
+                exp = 1 if any(states[si][0] != "card" for si in combo) else 0
+                if got != exp and badp is None:
+                    badp = (combo, dict(env))
+            rep.evals(cnt_)
+            rep.ob("V.is_corrupt", short(path), badp is None,
+                   "is_corrupt is not `some slot is mapped to BLANK by the card filter` over exactly the %d slots: wrong for slot states %s (words %s)" % (
+                       n, [states[si][0] for si in badp[0]] if badp else "", [hex(badp[1]["s%d" % i]) for i in range(n)] if badp else ""), pdb.where(key))
             key, sty = ctx.method(path, "contain_blank", HV)
             r = ctx.summ(key, [("r", h)], sty).ret
             bad = 0
@@ -2546,6 +2558,25 @@ def check_C04(ctx):
         ctx.guard("V.is_valid." + short(path), valid)
         ctx.guard("V.are_unique." + short(path), premise_unique, ctx, path, n, "V.are_unique")
         cnt += 1
+    return cnt
+
+
+def check_C04(ctx):
+    rep, pdb = ctx.rep, ctx.pdb
+    premise_layout(ctx)
+    cards = ctx.guard("L.constants", ctx.card_consts)
+    if cards is None:
+        return
+    words = list(cards.values())
+
+    def filt():
+        key, sty = ctx.method("u32", "filter", PC)
+        check_filter_cells(ctx, "V.filter", key, sty, words)
+        k2 = pdb.inherent("CardNumber", "filter")
+        check_filter_cells(ctx, "V.filter(CardNumber)", k2, None, words)
+    ctx.guard("V.filter", filt)
+
+    cnt = premise_validators(ctx, CONTAINERS)
     rep.floor("V.containers", cnt, 6)
     # the gate, for the three ranked sizes and the free function
     premise_entry(ctx, "E", sizes=((FIVE, 5), (SIX, 6), (SEVEN, 7)), gate_total=True)
